@@ -28,6 +28,9 @@ from vp.props import optcommon as OC
 VALUES = [0, 1, 2, 3, 7]
 
 
+MODES = ["shared", "distinct", "unnamed", "lead", "lead_unnamed", "lead_distinct", "distinct_keep1", "unnamed_vi", "lead_unnamed_vi"]
+
+
 def redeclare(mb: bytes, spec, mode: str):
     """-> (model bytes with symbolic input dims, symspec {input: [dim names/ints]}, symbols {name: original size})"""
     m = onnx.load_from_string(mb)
@@ -44,12 +47,17 @@ def redeclare(mb: bytes, spec, mode: str):
                 name = by_size.setdefault(size, f"S{len(by_size)}")
             elif mode == "distinct":
                 name = f"D{len(symbols)}"
-            elif mode == "unnamed":
+            elif mode in ("unnamed", "unnamed_vi"):
                 name = f"?{len(symbols)}"
             elif mode == "lead":
                 name = by_size.setdefault(size, f"N{len(by_size)}") if ax == 0 else None
-            elif mode == "lead_unnamed":
+            elif mode in ("lead_unnamed", "lead_unnamed_vi"):
                 name = f"?{len(symbols)}" if ax == 0 else None
+            elif mode == "lead_distinct":
+                # a fresh symbol per leading dim; dims of size 1 stay static (rules reason from a known 1)
+                name = f"L{len(symbols)}" if ax == 0 and size != 1 else None
+            elif mode == "distinct_keep1":
+                name = f"K{len(symbols)}" if size != 1 else None
             else:
                 raise ValueError(mode)
             if name is None:
@@ -86,6 +94,14 @@ def redeclare(mb: bytes, spec, mode: str):
         m = onnx.shape_inference.infer_shapes(m, strict_mode=False, data_prop=True)
     except Exception:  # noqa: BLE001
         pass
+    if mode.endswith("_vi"):
+        # intermediate annotations with ANONYMOUS unknown dims (what a model carries when its annotations were written by a
+        # tool that does not invent names): the generated 'unk__N' names are removed again
+        for v in list(m.graph.value_info) + list(m.graph.output):
+            if v.type.HasField("tensor_type") and v.type.tensor_type.HasField("shape"):
+                for d in v.type.tensor_type.shape.dim:
+                    if d.dim_param.startswith("unk__"):
+                        d.ClearField("dim_param")
     return m.SerializeToString(), symspec, symbols
 
 
@@ -297,7 +313,7 @@ def main(tier: str, only=None) -> int:
             onnx.checker.check_model(onnx.load_from_string(mb))
         except Exception:  # noqa: BLE001
             continue
-        modes = ["shared", "distinct", "unnamed", "lead", "lead_unnamed"] if (tier == "thorough" or fams[0] == "shape" or "full-range idiom" in tag) else [r.choice(["shared", "distinct", "unnamed", "lead", "lead_unnamed"])]
+        modes = MODES if (tier == "thorough" or fams[0] == "shape" or "full-range idiom" in tag) else [r.choice(MODES)]
         for mode in modes:
             smb, symspec, symbols = redeclare(mb, spec, mode)
             if not symbols or len(symbols) > 4:
